@@ -34,6 +34,8 @@ MENUS = {
     # several columns under ONE function whose None sit at different rows, and a later-listed function over yet another column
     "two-counts": {"count": ["v", "x2"], "sum": ["x2"]},
     "count-stdev": {"count": ["v"], "stdev": ["x2"], "max": ["x1"]},
+    # EVERY function over two columns (and in the other order): no function carries anything over from its first column to its second
+    "all6-two-cols": {f: (["v", "w"] if i % 2 == 0 else ["w", "v"]) for i, f in enumerate(FNS)},
 }
 
 
@@ -241,7 +243,7 @@ def menus_for(nkeys, n, form, level="full"):
                 return [m for m in MENUS if m not in ("two-same-name", "lshift-built", "sum-mean-unnamed", "twice", "count-stdev")]
             return list(MENUS)
         return ["all6", "two-unnamed", "apply"]
-    return ["all6", "two-cols", "apply"] if form == "name" else ["all6"]
+    return ["all6", "two-cols", "apply", "all6-two-cols"] if form == "name" else ["all6"]
 
 
 def describe(kind, nkeys, form, keys, vals, menu, method):
